@@ -203,6 +203,12 @@ carquet_status_t carquet_snappy_decompress(
         return CARQUET_ERROR_INVALID_COMPRESSED_DATA;
     }
 
+    /* Elements left over after the declared length has been produced:
+     * the length prefix does not match the block. */
+    if (ip != iend) {
+        return CARQUET_ERROR_INVALID_COMPRESSED_DATA;
+    }
+
     *dst_size = uncompressed_len;
     return CARQUET_OK;
 }
